@@ -6,6 +6,11 @@
 (* Derived from the geometry alone (declarative):                                                            *)
 (*   J0  the delta in effect for the call's single group: |delta| for open end types; for polygons delta,       *)
 (*       negated iff the path owning the lowest vertex (necessarily an outermost path) has negative area          *)
+(*   J6  the calls made for one Execute are exactly, in order: per path (consecutive duplicate vertices and,    *)
+(*       for closed end types, closing vertices removed) nothing for a single point; for a polygon one join   *)
+(*       per vertex; for a joined path the same on the path and then on its reverse; for an open path the     *)
+(*       start cap, the joins of the inner vertices forwards, the end cap, the inner vertices backwards; a    *)
+(*       2-point joined path is treated as an open path; nothing at all when |delta| < 0.5                     *)
 (*   J1  nk is the right-hand unit normal of the incoming edge (binding of BuildNormals)                       *)
 (*   J2  the join is CONCAVE iff the turn from the incoming to the outgoing edge is towards the offset side    *)
 (*       (the outgoing edge heads to the side the offset lies on, and it is not an almost complete reversal); a concave join appends      *)
@@ -47,9 +52,32 @@ GroupDelta ==   \* expected 1000 * group delta of the current call, or 0 when th
           IN IF Cardinality(own) # 1 THEN 0
              ELSE LET a == Area2(c.paths[CHOOSE k \in own : TRUE]) IN IF a = 0 THEN 0 ELSE IF a < 0 THEN -dl ELSE dl
 ChkDelta == (cs.has /\ cs.case.sc = 4 /\ GroupDelta # 0) => Chk(Ev.d = GroupDelta, "ENGINE", "J0_group_delta_sign_or_size", <<Ev.d, GroupDelta>>)
+(* ---- J6: the expected sequence of <<pk, pj, cap>> for a call *)
+RECURSIVE StripCons(_)
+StripCons(P) == IF Len(P) < 2 THEN P ELSE IF P[1] = P[2] THEN StripCons(Tail(P)) ELSE <<P[1]>> \o StripCons(Tail(P))
+RECURSIVE StripClose(_)
+StripClose(P) == IF Len(P) > 1 /\ P[Len(P)] = P[1] THEN StripClose(SubSeq(P, 1, Len(P) - 1)) ELSE P
+Strip(P, closed) == IF closed THEN StripClose(StripCons(P)) ELSE StripCons(P)
+Rev(P) == [i \in 1..Len(P) |-> P[Len(P) + 1 - i]]
+PolySeq(P) == [j \in 1..Len(P) |-> <<P[IF j = 1 THEN Len(P) ELSE j - 1], P[j], 0>>]
+OpenSeq(P) == LET n == Len(P)
+              IN <<<<P[2], P[1], 1>>>> \o [j \in 1..(n - 2) |-> <<P[j], P[j + 1], 0>>]
+                 \o <<<<P[n - 1], P[n], 2>>>> \o [i \in 1..(n - 2) |-> <<P[n + 1 - i], P[n - i], 0>>]
+PathSeq(Q, jt, et) == LET P == Strip(Q, et \in {0, 1})  n == Len(P)
+                      IN IF n < 2 THEN <<>>
+                         ELSE IF et = 0 THEN PolySeq(P)
+                         ELSE IF et = 1 /\ n > 2 THEN PolySeq(P) \o PolySeq(Rev(P))
+                         ELSE OpenSeq(P)
+ExpSeq(c) == IF Abs(c.d4) < 2 THEN <<>> ELSE Flat([k \in 1..Len(c.paths) |-> PathSeq(c.paths[k], c.jt, c.et)])
+(* one event consumed against the expectation; a mismatch is reported once per call *)
+Follow == IF ~cs.has \/ cs.lost THEN cs
+          ELSE IF cs.exp # <<>> /\ Head(cs.exp) = <<Ev.pk, Ev.pj, Ev.cap>> THEN [cs EXCEPT !.exp = Tail(@)]
+          ELSE [cs EXCEPT !.lost = TRUE]
+ChkFollow == (cs.has /\ ~cs.lost) => Chk(cs.exp # <<>> /\ Head(cs.exp) = <<Ev.pk, Ev.pj, Ev.cap>>, "ENGINE", "J6_unexpected_join_or_cap_call", IF cs.exp = <<>> THEN <<>> ELSE Head(cs.exp))
+ChkDone == (cs.has /\ ~cs.lost) => Chk(cs.exp = <<>>, "ENGINE", "J6_vertices_without_their_join_or_cap", Len(cs.exp))
 TCap ==
   /\ Ev.e = "Join" /\ Ev.cap # 0
-  /\ UNCHANGED cs /\ ChkDelta
+  /\ cs' = Follow /\ ChkFollow /\ ChkDelta /\ (l = Len(Tr) => LET cs2 == Follow IN (cs2.has /\ ~cs2.lost) => Chk(cs2.exp = <<>>, "ENGINE", "J6_vertices_without_their_join_or_cap", Len(cs2.exp)))
   /\ st' = [st EXCEPT ![7] = @ + 1]
   /\ (l = Len(Tr) => PrintT(<<"NOTE", "JOINS", l, [st EXCEPT ![7] = @ + 1]>>))
   /\ LET pk == Ev.pk  pj == Ev.pj  d == Ev.d  D == Abs(d)  et == Ev.et  P == Ev.pts  n == Len(P)
@@ -70,7 +98,7 @@ TCap ==
                  "ENGINE", "J5_round_cap_chord_exceeds_arc_tolerance", n)
 TJoin ==
   /\ Ev.e = "Join" /\ Ev.cap = 0
-  /\ UNCHANGED cs /\ ChkDelta
+  /\ cs' = Follow /\ ChkFollow /\ ChkDelta /\ (l = Len(Tr) => LET cs2 == Follow IN (cs2.has /\ ~cs2.lost) => Chk(cs2.exp = <<>>, "ENGINE", "J6_vertices_without_their_join_or_cap", Len(cs2.exp)))
   /\ LET pk == Ev.pk  pj == Ev.pj  nk == Ev.nk  nj == Ev.nj  d == Ev.d  D == Abs(d)  jt == Ev.jt  P == Ev.pts
          dx == pj[1] - pk[1]  dy == pj[2] - pk[2]  len2 == dx * dx + dy * dy
          sinS == nj[1] * nk[2] - nj[2] * nk[1]                 \* 10^6 (outgoing direction . incoming normal): > 0 iff the path turns towards its normal side
@@ -96,8 +124,9 @@ TJoin ==
                   /\ Chk(jt # 2 \/ n >= 2, "ENGINE", "J3_round_needs_two_points", n)
                   /\ Chk(jt # 2 \/ lo2 <= 0 \/ \A i \in 1..(n - 1) : 100 * Dist2(<<P[i][1] + P[i + 1][1], P[i][2] + P[i + 1][2]>>, <<2 * pj[1], 2 * pj[2]>>) >= lo2 * lo2,
                          "ENGINE", "J4_round_join_chord_exceeds_arc_tolerance", n)
-TJCase == Ev.e = "JCase" /\ UNCHANGED st /\ cs' = [has |-> TRUE, case |-> Ev.case]            \* the call the following Join events belong to (used to escalate a divergence)
-Init == l = 1 /\ cs = [has |-> FALSE] /\ st = <<0, 0, 0, 0, 0, 0, 0>>
+TJCase == Ev.e = "JCase" /\ UNCHANGED st /\ ChkDone
+          /\ LET e == ExpSeq(Ev.case) IN cs' = [has |-> TRUE, case |-> Ev.case, exp |-> e, lost |-> (Ev.case.sc # 4 \/ Len(e) > 80)]            \* the call the following Join events belong to (used to escalate a divergence)
+Init == l = 1 /\ cs = [has |-> FALSE, lost |-> TRUE, exp |-> <<>>] /\ st = <<0, 0, 0, 0, 0, 0, 0>>
 Next == l <= Len(Tr) /\ l' = l + 1 /\ (TJoin \/ TCap \/ TJCase)
 Spec == Init /\ [][Next]_<<l, cs, st>>
 =============================================================================
